@@ -23,6 +23,13 @@ NOTES = {
  "C09-m3": "strengthened: the permission record in force (also 'none') must survive a restart",
  "C13-m3": "strengthened: every read request over the binary protocol and over HTTP/JSON must give equal answers, group details equal to the members (was caught by C06/C08 only)",
  "C13-m4": "strengthened: messages carrying every header kind with boundary-length keys and values, written and read over both transports",
+ "C16-m3": "strengthened: accounting audit over whole catalogues, also with server-side encryption (sizes against the bytes in the segment files, before / after a restart)",
+ "C16-m4": "strengthened: refused requests (id taken, missing topic / partition) must leave every figure as it was; segment count against the segments that exist",
+ "C17-m3": "strengthened: the routing monitor now also runs on the whole server, with partition additions / removals and restarts",
+ "C17-m4": "strengthened: size-limited topics - sends refused because the topic is full must not move the rotation",
+ "C18-m4": "strengthened: id time-to-live configured as none / 0 / unlimited",
+ "C19-m3": "strengthened: encryption switched on with an unusable key - the server may refuse to start, but may not serve in clear",
+ "C19-m4": "strengthened: after a start attempt under another key, the right key must still restore catalogue and data",
  "C10-m4": "strengthened: an administrator changes another user's password, then a restart (journal replay must change that user's, not the issuer's); get_me made observable by granting read_servers",
  "C09-m4": "strengthened: requests after logout on the same connection must be unauthenticated",
  "C12-m2": "strengthened: producers poll from their own cursor right after each send (no-wait window)",
